@@ -47,7 +47,17 @@ func genBody(r *gen.Rand, tag string) string {
 		used[k] = true
 		parts = append(parts, stmtPool[k])
 	}
-	parts = append(parts, fmt.Sprintf("panic(fmt.Errorf(\"body of %s\"))", tag))
+	last := fmt.Sprintf("panic(fmt.Errorf(\"body of %s\"))", tag)
+	// how the body ends: with the statement, with a comment on its line, with a comment line after it
+	switch r.Intn(5) {
+	case 0:
+		last += " // the last thing in this body is a line comment"
+	case 1:
+		last += "\n// a comment line closes the body }"
+	case 2:
+		last += " /* a block comment closes the body */"
+	}
+	parts = append(parts, last)
 	return strings.Join(parts, "\n")
 }
 
